@@ -59,6 +59,9 @@ func runGossip(s *sim.Sim, o gopts) {
 		writers = append(writers, wr)
 	}
 	nEditors := s.Choose(3, "editors")
+	if o.prop == "C04" {
+		nEditors = 1 + s.Choose(3, "editors-c04")
+	}
 	type editor struct {
 		id      int
 		home    int
@@ -113,6 +116,57 @@ func runGossip(s *sim.Sim, o gopts) {
 			for id, ow := range pv.Owners {
 				if ow.State == ring.OwnerDeleted {
 					s.Fail("tombstone-visible", "", "after %s: node %s shows deleted owner %s to readers", what, nd.name, id)
+				}
+			}
+		}
+		// C04 for partitions and owners. An editor may legitimately create the entry anew after its removal;
+		// such a write carries a timestamp later than the tombstone's (all nodes share one clock here and the
+		// tombstone is stamped with the removal time), so a live entry at or below the tombstone's timestamp
+		// can only come from a message produced before the removal.
+		if praw, _ := nd.raw(partKey).(*ring.PartitionRingDesc); praw == nil {
+			nd.ptomb = map[string]int64{}
+		} else {
+			nowSec := time.Now().Unix()
+			retention := int64(w.leftTimeout/time.Second) - 2
+			for _, id := range sortedPtomb(nd.ptomb) {
+				ts := nd.ptomb[id]
+				var live, present bool
+				var curTS int64
+				if strings.HasPrefix(id, "p") {
+					var pid int32
+					fmt.Sscanf(id, "p%d", &pid)
+					if p, ok := praw.Partitions[pid]; ok {
+						present, live, curTS = true, p.State != ring.PartitionDeleted, p.StateTimestamp
+					}
+				} else if ow, ok := praw.Owners[id]; ok {
+					present, live, curTS = true, ow.State != ring.OwnerDeleted, ow.UpdatedTimestamp
+				}
+				switch {
+				case present && !live:
+				case present && curTS > ts:
+					delete(nd.ptomb, id)
+					s.Probe("partition-entry-recreated-after-removal")
+				case present && nowSec-ts >= retention:
+					delete(nd.ptomb, id)
+					s.Probe("reappeared-after-retention")
+				case present:
+					s.Fail("entry-resurrected", "", "after %s: node %s held the tombstone of %s stamped %d, now the entry is back with timestamp %d: %s (now %d, retention %v)", what, nd.name, id, ts, curTS, canonPartDesc(praw, true), nowSec, w.leftTimeout)
+				default:
+					if nowSec-ts < retention {
+						s.Fail("tombstone-discarded-early", "", "after %s: node %s dropped the tombstone of %s (stamped %d) at %d, retention %v", what, nd.name, id, ts, nowSec, w.leftTimeout)
+					}
+					delete(nd.ptomb, id)
+					s.Probe("tombstone-garbage-collected")
+				}
+			}
+			for pid, p := range praw.Partitions {
+				if p.State == ring.PartitionDeleted {
+					nd.ptomb[fmt.Sprintf("p%d", pid)] = p.StateTimestamp
+				}
+			}
+			for id, ow := range praw.Owners {
+				if ow.State == ring.OwnerDeleted {
+					nd.ptomb[id] = ow.UpdatedTimestamp
 				}
 			}
 		}
@@ -330,19 +384,20 @@ func runGossip(s *sim.Sim, o gopts) {
 			return
 		}
 		ed.busy = true
-		kind := s.Choose(5, "editor-op")
+		kind := s.Choose(6, "editor-op")
 		ownerID := fmt.Sprintf("o%d", ed.id)
 		inc := nd.incarnation
 		s.Go(fmt.Sprintf("edit-%d", ed.id), func() {
 			var ts int64
 			var key string
 			declined := false
-			removedOwner := false
+			removedOwner, removedPart := false, false
 			err := nd.partCl.CAS(ctx, partKey, func(in interface{}) (interface{}, bool, error) {
 				d := ring.GetOrCreatePartitionRingDesc(in)
 				now := time.Now()
 				declined = false
 				ts, key = 0, ""
+				removedOwner, removedPart = false, false
 				pid := int32(ed.id)
 				switch {
 				case !d.HasPartition(pid):
@@ -384,6 +439,14 @@ func runGossip(s *sim.Sim, o gopts) {
 						return nil, false, nil
 					}
 					ts, key = now.Unix(), ownerID
+				case kind == 5:
+					if !s.Chance(o.removals, "remove-partition") {
+						declined = true
+						return nil, false, nil
+					}
+					d.RemovePartition(pid)
+					removedPart = true
+					ts, key = now.Unix(), fmt.Sprintf("p%d", pid)
 				default:
 					if !d.HasOwner(ownerID) {
 						declined = true
@@ -399,6 +462,11 @@ func runGossip(s *sim.Sim, o gopts) {
 				ed.busy = false
 				if err == nil && !declined && removedOwner {
 					w.removedAt[ownerID] = s.Elapsed()
+					s.Probe("owner-removed")
+				}
+				if err == nil && !declined && removedPart {
+					w.removedAt[fmt.Sprintf("p%d", ed.id)] = s.Elapsed()
+					s.Probe("partition-removed")
 				}
 				if err == nil && !declined && key != "" {
 					if strings.HasPrefix(key, "p") && ts > ed.lastTS {
@@ -591,7 +659,11 @@ func runGossip(s *sim.Sim, o gopts) {
 		for _, ed := range editors {
 			ed := ed
 			if !ed.busy && w.nodes[ed.home].alive {
-				alts = append(alts, alt{1, func() { editorOp(ed) }})
+				ew := 1
+				if o.prop == "C04" {
+					ew = 3
+				}
+				alts = append(alts, alt{ew, func() { editorOp(ed) }})
 			}
 		}
 		if o.removals > 0.2 {
@@ -628,6 +700,12 @@ func runGossip(s *sim.Sim, o gopts) {
 				for id := range w.nodes[p.to].tomb {
 					if at, ok := w.removedAt[id]; ok && p.sentAt < at {
 						lateDelivered = true
+					}
+				}
+				for id := range w.nodes[p.to].ptomb {
+					if at, ok := w.removedAt[id]; ok && p.sentAt < at {
+						lateDelivered = true
+						s.Probe("pre-removal-message-delivered-after-partition-tombstone")
 					}
 				}
 				s.Probe("delayed-message-delivered")
@@ -887,6 +965,10 @@ func runGossip(s *sim.Sim, o gopts) {
 						okAck = true
 					}
 				}
+				// a tombstone older than the retention may already be gone everywhere
+				if at, removed := w.removedAt[id]; removed && s.Elapsed()-at > w.leftTimeout-2*time.Second {
+					okAck = true
+				}
 			case strings.HasPrefix(id, "o"):
 				raw, _ := nd.raw(partKey).(*ring.PartitionRingDesc)
 				if raw != nil {
@@ -971,6 +1053,15 @@ func runGossip(s *sim.Sim, o gopts) {
 	s.State(n, canonValue(w.nodes[alive[0]].visible(ringKey), false), canonValue(w.nodes[alive[0]].visible(partKey), false))
 }
 
+func sortedPtomb(m map[string]int64) []string {
+	ks := make([]string, 0, len(m))
+	for k := range m {
+		ks = append(ks, k)
+	}
+	sort.Strings(ks)
+	return ks
+}
+
 func sortedKeys(m map[string]ring.InstanceDesc) []string {
 	var ks []string
 	for k := range m {
@@ -988,6 +1079,12 @@ func (w *gworld) onlyExpiredRemovalsDiffer(before, after string) bool {
 		m := map[string]bool{}
 		for _, part := range strings.Split(strings.NewReplacer(" || ", "} ", "deleted=false ", "", "deleted=true ", "").Replace(c), "} ") {
 			part = strings.TrimSpace(part)
+			// the first entry of a key carries the key's label ("ring": ...)
+			if strings.HasPrefix(part, "\"") {
+				if i := strings.Index(part, "\": "); i >= 0 {
+					part = strings.TrimSpace(part[i+3:])
+				}
+			}
 			if part != "" {
 				m[strings.TrimSuffix(part, "}")] = true
 			}
